@@ -8,6 +8,7 @@ import Tdms.Spec.Parse
 import Tdms.Model.Defrag
 import Tdms.Model.Resource
 import Tdms.Model.Thermocouple
+import Tdms.Model.Scaling
 
 /-!
 # Line protocol of the model executable
@@ -587,6 +588,67 @@ def cmdTc (args : List String) : String :=
     | _, _ => jObj [("ok", "false"), ("err", jStr "parse")]
   | _ => jObj [("ok", "false"), ("err", jStr "parse")]
 
+/-! ## scaling (C13, C14) -/
+
+open Tdms.Model.Scaling in
+def tPV : T (String × PV Rat) := do
+  let name ← tHex
+  let v ← tok
+  let nm := (String.fromUTF8? (ByteArray.mk name.toArray)).getD ""
+  match v.splitOn ":" with
+  | ["n", r] => match parseRatTok r with | some q => pure (nm, .num q) | none => failure
+  | ["u", n] => match n.toNat? with | some k => pure (nm, .nat k) | none => failure
+  | ["s", h] => match ofHex h with
+    | some b => pure (nm, .str ((String.fromUTF8? (ByteArray.mk b.toArray)).getD ""))
+    | none => failure
+  | _ => failure
+
+def tRat : T Rat := do
+  let t ← tok
+  match parseRatTok t with
+  | some q => pure q
+  | none => failure
+
+open Tdms.Model.Scaling in
+def scalingName : Scaling Rat → String
+  | .linear .. => "linear" | .polynomial .. => "polynomial" | .table .. => "table" | .add .. => "add"
+  | .subtract .. => "subtract" | .daqmx .. => "daqmx" | .noop .. => "noop" | .sensor .. => "sensor"
+
+open Tdms.Model.Scaling in
+/-- `scale <rawkind|-> <n> data… <nscalers> {id kind n data…} <nchan> props… <ngroup> props… <nfile> props…` -/
+def cmdScale (args : List String) : String :=
+  let p : T (String × List Rat × List (Nat × String × List Rat) × Props Rat × Props Rat × Props Rat) := do
+    let kind ← tok
+    let data ← tCounted tRat
+    let scalers ← tCounted (do
+      let id ← tNat
+      let k ← tok
+      let d ← tCounted tRat
+      pure (id, k, d))
+    let c ← tCounted tPV
+    let g ← tCounted tPV
+    let f ← tCounted tPV
+    pure (kind, data, scalers, c, g, f)
+  match p.run args with
+  | some ((kind, data, scalers, c, g, f), []) =>
+    match getScaling c g f with
+    | .error e => jObj [("ok", "false"), ("err", jStr (reprStr e))]
+    | .ok none => jObj [("ok", "true"), ("scaling", "null")]
+    | .ok (some sc) =>
+      let n := if kind = "-" then ((scalers.head?.map (·.2.2.length)).getD 0) else data.length
+      let raws : List (RawElem Rat) := (List.range n).map fun i =>
+        { data := if kind = "-" then none else data[i]?, scalers := scalers.filterMap fun (id, _, d) => d[i]?.map fun v => (id, v) }
+      let outs := scaleArray interpRat (fun _ x => x) sc raws
+      let fuel := sc.length + 1
+      let kinds := scalers.map fun (id, k, _) => (id, k)
+      jObj [("ok", "true"), ("scaling", jArr (sc.map fun x => jStr (scalingName x))),
+            ("declared", jOpt jStr (declaredKind sc kind kinds fuel (sc.length - 1))),
+            ("actual", jOpt jStr (actualKind sc kind kinds fuel (sc.length - 1))),
+            ("values", jArr (outs.map fun o => match o with
+              | .ok q => jStr s!"{q.num}/{q.den}"
+              | .error e => jObj [("err", jStr (reprStr e))]))]
+  | _ => jObj [("ok", "false"), ("err", jStr "parse")]
+
 def dispatchBase (cmd : String) (args : List String) : Option String :=
   match cmd with
   | "enc" => some (cmdEnc args)
@@ -607,6 +669,7 @@ def dispatchBase (cmd : String) (args : List String) : Option String :=
   | "res" => some (cmdRes args)
   | "wres" => some (cmdWRes args)
   | "tc" => some (cmdTc args)
+  | "scale" => some (cmdScale args)
   | "ping" => some (jObj [("ok", "true")])
   | _ => none
 
